@@ -757,7 +757,9 @@ func (st *State) call(x *ssa.Call) []*State {
 		if !ip.InlineCalls && ip.isPurePredicate(f) {
 			// a shallow predicate (`a == K || p(a)`) is evaluated in place: its atoms — comparisons and the deeper predicates it
 			// calls — are then the same whether the caller spells the condition out or calls the predicate
-			if len(f.Blocks) <= 4 && st.depth < 12 && !ip.inProgress[f] {
+			// (only predicates that are built from other predicates: one that is a plain comparison chain keeps its name, which is
+			// what lets two functions that both call it agree on its outcome without reasoning about the values)
+			if len(f.Blocks) <= 4 && st.depth < 12 && !ip.inProgress[f] && callsPredicate(f) {
 				return st.inlineCall(x, f, args)
 			}
 			var parts []string
@@ -856,6 +858,20 @@ func (st *State) bigEndian(x *ssa.Call, s *SliceV, n int) (Val, bool) {
 		return st.withBits(res, vec), true
 	}
 	return res, true
+}
+
+// callsPredicate: the body of f calls at least one function of its package.
+func callsPredicate(f *ssa.Function) bool {
+	for _, b := range f.Blocks {
+		for _, in := range b.Instrs {
+			if c, ok := in.(*ssa.Call); ok {
+				if cal := c.Call.StaticCallee(); cal != nil && cal.Pkg == f.Pkg {
+					return true
+				}
+			}
+		}
+	}
+	return false
 }
 
 // isPurePredicate: a package function whose parameters are all integers/booleans, whose single result
